@@ -199,6 +199,8 @@ class VTensor(V):
         n = name.split(".")[-1]
         if n == "Tensor":
             return not self.is_linop
+        if n == "Parameter":
+            return bool(self.meta.get("is_parameter"))
         if n == "LinearOperator":
             return self.is_linop
         if self.is_linop and self.linop_class:
@@ -238,6 +240,14 @@ class VTensor(V):
 
     def shape_tuple(self):
         return VTuple([VNum(d.size) for d in self.dims], is_size=True)
+
+    def frozen(self):
+        """snapshot of the current value: later in-place mutation of `self` does not affect the snapshot
+        (closures of derived tensors must read the value the operand had when the operation ran)"""
+        t = VTensor(list(self.dims), self.elem, self.sort, self.is_linop, self.label, self.linop_class)
+        t.meta = self.meta
+        t.requires_grad = self.requires_grad
+        return t
 
     def copy(self, **kw):
         t = VTensor(list(self.dims), self.elem, self.sort, self.is_linop, self.label, self.linop_class)
@@ -295,7 +305,10 @@ class VTensor(V):
         if o is None:
             return NotImplemented
         a, b = (o, self) if reflected else (self, o)
-        r = pointwise(ctx, [a, b], lambda x, y: f(ctx, x, y))
+        srt = "real" if op == "/" else ("bool" if op in ("&", "|") else None)
+        r = pointwise(ctx, [a, b], lambda x, y: f(ctx, x, y), sort=srt)
+        if op == "**" and r.sort == "int" and not (isinstance(other, VNum) and other.is_int):
+            r.sort = "real"
         if self.is_linop or (isinstance(other, VTensor) and other.is_linop):
             if (self.is_linop or not isinstance(other, VTensor) or other.is_linop or op in ("+", "-")):
                 r.is_linop = True
@@ -426,7 +439,7 @@ def _atoms_match(ctx, a, b):
 
 
 def pointwise(ctx, tensors, f, sort=None):
-    tensors = [as_tensor(t) if not isinstance(t, VTensor) else t for t in tensors]
+    tensors = [(as_tensor(t) if not isinstance(t, VTensor) else t).frozen() for t in tensors]
     dims, maps = broadcast_dims(ctx, tensors)
 
     def elem(idx):
@@ -453,8 +466,9 @@ def pointwise(ctx, tensors, f, sort=None):
         return f(*vals)
 
     if sort is None:
-        probe = elem([z3.IntVal(0)] * sum(len(d.atoms) for d in dims))
-        sort = sort_of_term(probe)
+        # no probing evaluation (element functions may record assumptions): arithmetic keeps the widest input sort
+        sorts = {t.sort for t in tensors}
+        sort = "real" if "real" in sorts else ("int" if "int" in sorts else "bool")
     return VTensor(dims, elem, sort)
 
 
@@ -542,6 +556,12 @@ def assign_inplace(dst, src, ctx=None):
     dst.dims = list(src.dims) if len(src.dims) >= len(dst.dims) else dst.dims
     dst.elem = src.elem
     dst.sort = src.sort
+    for gk in ("inverse_of", "ghost"):
+        if gk in src.meta:
+            dst.meta[gk] = src.meta[gk]
+        else:
+            dst.meta.pop(gk, None)
+    dst.meta["version"] = dst.meta.get("version", 0) + 1
 
 
 def _coerce_to(a, like):
@@ -577,6 +597,7 @@ def _dim_offsets(t):
 
 
 def permute(t, order):
+    t = t.frozen()
     offs = _dim_offsets(t)
     new_dims = [t.dims[o] for o in order]
 
@@ -605,6 +626,7 @@ def transpose(ctx, t, d0, d1):
 
 
 def unsqueeze(ctx, t, d):
+    t = t.frozen()
     p = norm_dim(ctx, t, d, extra=1)
     offs = _dim_offsets(t) + [t.natoms()]
     cut = offs[p]
@@ -614,6 +636,7 @@ def unsqueeze(ctx, t, d):
 
 
 def squeeze(ctx, t, d=None):
+    t = t.frozen()
     if d is None:
         keep = [i for i, dm in enumerate(t.dims) if not _dim_is_one(ctx, dm)]
     else:
@@ -643,6 +666,7 @@ def squeeze(ctx, t, d=None):
 
 def expand(ctx, t, sizes):
     """sizes: list of z3 Int (or -1 literal)"""
+    t = t.frozen()
     n_new = len(sizes) - len(t.dims)
     if n_new < 0:
         raise PyRaise(VExc("RuntimeError", "expand: fewer sizes than dims"))
@@ -674,6 +698,9 @@ def expand(ctx, t, sizes):
             else:
                 raise PyRaise(VExc("RuntimeError", f"expand: size {s} does not match {d}"))
 
+    if all(m == "same" for m in modes):
+        return t  # expanding to the own shape is the identity (same cell, as in torch)
+
     def elem(idx):
         old = []
         p = 0
@@ -693,6 +720,7 @@ def reshape(ctx, t, sizes):
     """row-major reinterpretation; sizes: list of z3 Int terms, at most one literal -1.
     Target sizes are matched against runs of consecutive source atoms from the left and from the
     right; only an unmatched middle block is re-indexed through its own linear index."""
+    t = t.frozen()
     sizes = [z3.simplify(s) for s in sizes]
     neg = [i for i, s in enumerate(sizes) if z3.is_int_value(s) and s.as_long() == -1]
     if len(neg) > 1:
@@ -830,6 +858,7 @@ def _regroup(t, src_atoms, runs):
 
 def flatten_dim(t, p):
     """make dim p single-atom (introduces div/mod)"""
+    t = t.frozen()
     d = t.dims[p]
     if len(d.atoms) == 1:
         return t
@@ -872,6 +901,7 @@ def slice_params(ctx, s, n):
 
 
 def index_tensor(t, it, ctx, idx):
+    t = t.frozen()
     items = list(idx.items) if isinstance(idx, VTuple) else [idx]
     items = [x.force(it, ctx) if isinstance(x, VAny) else x for x in items]
     # bool / list indices
@@ -1059,7 +1089,7 @@ def setitem_tensor(t, it, ctx, idx, v):
 
 # ------------------------------------------------------------------ combining ---------------
 def stack(ctx, tensors, dim):
-    tensors = [as_tensor(x) for x in tensors]
+    tensors = [as_tensor(x).frozen() for x in tensors]
     dims, maps = broadcast_dims(ctx, tensors)
     exp = [pointwise(ctx, [t] + [VTensor(dims, lambda idx: z3.IntVal(0), "int")], lambda a, b: a) if len(t.dims) != len(dims) else t for t in tensors]
     base = exp[0]
@@ -1083,7 +1113,7 @@ def stack(ctx, tensors, dim):
 
 
 def cat(ctx, tensors, dim):
-    tensors = [flatten_for_cat(t, dim) for t in tensors]
+    tensors = [flatten_for_cat(t.frozen(), dim) for t in tensors]
     base = tensors[0]
     p = dim if dim >= 0 else dim + len(base.dims)
     offs = _dim_offsets(base)
@@ -1123,6 +1153,7 @@ def flatten_for_cat(t, dim):
 
 
 def reduce_sum(ctx, t, dim, keepdim=False, mean=False):
+    t = t.frozen()
     p = norm_dim(ctx, t, dim)
     t = flatten_dim(t, p)
     offs = _dim_offsets(t)
@@ -1153,6 +1184,7 @@ def matmul(ctx, a, b):
     a, b = as_tensor(a), as_tensor(b)
     if a is None or b is None:
         raise Undecided("matmul with non-tensor")
+    a, b = a.frozen(), b.frozen()
     va = len(a.dims) == 1
     vb = len(b.dims) == 1
     if va:
@@ -1230,6 +1262,7 @@ def diagonal(ctx, t, dim1=-2, dim2=-1):
 
 
 def diag_embed(ctx, v):
+    v = v.frozen()
     lead = v.dims[:-1]
     nl = sum(len(d.atoms) for d in lead)
     d = v.dims[-1]
@@ -1396,6 +1429,9 @@ def m_any_all(is_any):
             #   any:  elem(idx) => p        all:  p => elem(idx)          (for every in-range idx)
             # recorded on the path and instantiated by the contract at the indices it reasons about
             # (the converse direction is omitted: fewer proofs, never a wrong one)
+            if t.natoms() == 0:
+                e0 = t.elem([])
+                return VTensor([], lambda idx: e0 if z3.is_bool(e0) else (e0 != 0), "bool")
             p = z3.Bool(fresh("any" if is_any else "all"))
 
             def fact(idx, t=t, p=p):
@@ -1404,6 +1440,15 @@ def m_any_all(is_any):
                 return z3.Implies(t.in_range(idx), z3.Implies(e, p) if is_any else z3.Implies(p, e))
 
             ctx.ghost.setdefault("forall_facts", []).append((t.natoms(), fact))
+            # the converse direction by a Skolem witness: any: p => elem(k*), all: not p => not elem(k*)
+            ks = [ivar("w") for _ in range(t.natoms())]
+            ew = t.elem(list(ks))
+            ew = ew if z3.is_bool(ew) else (ew != 0)
+            if is_any:
+                ctx.assume(z3.Implies(p, z3.And(t.in_range(ks), ew)))
+            else:
+                ctx.assume(z3.Implies(z3.Not(p), z3.And(t.in_range(ks), z3.Not(ew))))
+            ctx.ghost.setdefault("witnesses", []).append(ks)
             return VTensor([], lambda idx: p, "bool")
         cnt = m_sum(pointwise(ctx, [t], lambda x: z3.If(x if z3.is_bool(x) else x != 0, z3.IntVal(1), z3.IntVal(0)), sort="int"),
                     it, ctx, [dim] if dim is not None else [], {})
@@ -1451,6 +1496,7 @@ def m_clone(t, it, ctx, a, k):
 
 
 def m_repeat(t, it, ctx, a, k):
+    t = t.frozen()
     reps = _shape_args(it, ctx, a)
     if len(reps) < len(t.dims):
         raise PyRaise(VExc("RuntimeError", "repeat: too few repeat dims"))
@@ -1500,6 +1546,7 @@ def m_diagonal(t, it, ctx, a, k):
 
 
 def m_add_jitter(t, it, ctx, a, k):
+    t = t.frozen()
     j = a[0] if a else k.get("jitter_val", VNum(1e-3))
     jt = to_real(j.t)
     n = len(t.dims[-2].atoms)
